@@ -476,9 +476,13 @@ func engineC51(c *vctx) error {
 			}
 			sig, sigValidFor = c51Sign(keys.trusted, stale, true), stale
 			tag("sig-stale")
-		case r < 85:
+		case r < 82:
 			sig = []byte("-----BEGIN PGP SIGNATURE-----\n\naGVsbG8=\n=AAAA\n-----END PGP SIGNATURE-----\n")
 			tag("sig-garbage")
+		case r < 85:
+			// a well-formed armored block that contains no signature packet at all
+			sig = []byte("-----BEGIN PGP SIGNATURE-----\n\n=twTO\n-----END PGP SIGNATURE-----\n")
+			tag("sig-armor-without-signature")
 		case r < 89:
 			sig = []byte{}
 			tag("sig-empty")
